@@ -96,7 +96,15 @@ func (w *world) filterBits(rid uint64) string {
 }
 
 func (w *world) check(kind string, rid uint64) (res string) {
-	cw, err := w.sp.Build()
+	sp := w.sp
+	if kind == "ctlx" {
+		// the controller is created in the other placement-rules mode and switched online afterwards:
+		// the rule manager (and the rules) must exist either way
+		c := *w.sp
+		c.Opts.Rules = true
+		sp = &c
+	}
+	cw, err := sp.Build()
 	if err != nil {
 		return "err:" + strings.ReplaceAll(err.Error(), " ", "_")
 	}
@@ -122,16 +130,24 @@ func (w *world) check(kind string, rid uint64) (res string) {
 		}
 		prefix = pdcluster.FormatFit(cw.Cluster.FitRegion(region)) + " | "
 		op = checker.NewRuleChecker(cw.Cluster, cw.Cluster.RuleManager, wl).Check(region)
-	case "ctl":
-		// the real entry point: CheckerController.CheckRegion (joint-state, rule or learner+replica, merge)
+	case "ctl", "ctlx":
+		// the real entry point: CheckerController.CheckRegion (joint-state, rule or learner+replica, merge).
+		// ctlx: the controller is constructed while placement rules are in the OTHER mode, then the mode
+		// is switched online (enable-placement-rules is a dynamic option) and the region is checked.
 		if w.sp.Opts.Rules {
 			if cw.Cluster.RuleManager == nil {
 				return "no-rules"
 			}
 			prefix = pdcluster.FormatFit(cw.Cluster.FitRegion(region)) + " | "
 		}
+		if kind == "ctlx" {
+			cw.Cluster.SetEnablePlacementRules(!w.sp.Opts.Rules)
+		}
 		oc := schedule.NewOperatorController(cw.Ctx, cw.Cluster, nil)
 		cc := schedule.NewCheckerController(cw.Ctx, cw.Cluster, cw.Cluster.RuleManager, oc)
+		if kind == "ctlx" {
+			cw.Cluster.SetEnablePlacementRules(w.sp.Opts.Rules)
+		}
 		ops := cc.CheckRegion(region)
 		if len(ops) == 0 {
 			return prefix + "none"
@@ -484,9 +500,11 @@ func gen(w *world, t *trace.W, r *rng.R, malformed bool) {
 	w.run(t, "filters 7")
 	w.run(t, "check replica 7")
 	w.run(t, "check ctl 7")
+	w.run(t, "check ctlx 7") // controller created with placement rules on, switched off before the check
 	w.run(t, "opt rules=1")
 	w.run(t, "check rule 7")
 	w.run(t, "check ctl 7")
+	w.run(t, "check ctlx 7") // controller created with placement rules off, switched on before the check
 	// a second look after a small change: repairs of the repaired / degraded cluster
 	if r.Bool(1, 3) && len(ids) > 0 {
 		w.run(t, "opt rules=0")
